@@ -52,8 +52,8 @@ func H18Percentile() {
 // ---------------------------------------------------------------- order independence
 
 // stamps in both accepted formats; [1] and [2] denote the same instant
-var h18Stamps = []string{"20200101T000000", "2020-01-02T00:00:00+00:00", "2020-01-01T19:00:00-05:00"}
-var h18Instant = []int{0, 1, 1}
+var h18Stamps = []string{"20200101T000000", "2020-01-02T00:00:00+00:00", "2020-01-01T19:00:00-05:00", "2020-01-02T00:00:00.000+00:00"}
+var h18Instant = []int{0, 1, 1, 1}
 var h18Vals = []float64{3, 5, 7, 11, 13, 17, 19, 23}
 
 type h18Res struct {
@@ -73,8 +73,20 @@ func (r h18Res) build(i int) *benchfmt.Result {
 	// hashes are functions of the series / experiment, as in real data
 	add("nh", "n"+string([]byte{'0' + byte(h18Instant[r.ser])}))
 	add("dh", "d"+string([]byte{'0' + byte(r.exp)}))
-	res.Values = []benchfmt.Value{{Value: h18Vals[i], Unit: "u"}}
+	res.Values = []benchfmt.Value{{Value: h18Val(i), Unit: "u"}}
 	return res
+}
+
+var h18Descending bool
+
+// h18Val is the measurement of result i; descending order makes later
+// results smaller than earlier ones (so that sorting a combined sample moves
+// earlier elements).
+func h18Val(i int) float64 {
+	if h18Descending {
+		return h18Vals[len(h18Vals)-1-i]
+	}
+	return h18Vals[i]
 }
 
 func h18Options() *BuilderOptions {
@@ -135,7 +147,7 @@ func H18Order() {
 	order := make([]int, n)
 	for i := range rs {
 		rs[i].exp = vndChoice("exp", 2)
-		rs[i].ser = 1 + vndChoice("ser", 2) // two spellings of one instant
+		rs[i].ser = 1 + vndChoice("ser", 3) // three spellings of one instant
 		rs[i].role = []byte{'T', 'B'}[vndChoice("role", 2)]
 		rs[i].name = 'P'
 		order[i] = i
@@ -234,10 +246,10 @@ func H18Membership() {
 		for _, e := range use {
 			for i, r := range rs {
 				if r.exp == e && r.role == 'T' && h18Instant[r.ser] == ser {
-					wantN = append(wantN, h18Vals[i])
+					wantN = append(wantN, h18Val(i))
 				}
 				if r.exp == e && r.role == 'B' {
-					wantD = append(wantD, h18Vals[i])
+					wantD = append(wantD, h18Val(i))
 				}
 			}
 		}
@@ -246,5 +258,78 @@ func H18Membership() {
 		vndAssert(fmt.Sprint(c.Numerator.Values) == fmt.Sprint(wantN), "numerator-sample-is-exactly-the-matching-measurements")
 		vndAssert(fmt.Sprint(c.Denominator.Values) == fmt.Sprint(wantD), "denominator-sample-is-exactly-the-matching-measurements")
 		vndAssert(c.Date == norm[use[len(use)-1]], "point-dated-by-the-latest-experiment")
+	}
+}
+
+// H18Twice: building the series twice from one Builder gives the same
+// result, and cells of the Builder are not disturbed by combining (samples
+// with spare slice capacity are the interesting case: three baseline
+// measurements in the first experiment).
+func H18Twice() {
+	h18Descending = true
+	defer func() { h18Descending = false }()
+	dupe := vndParam("dupe")
+	// The experiment with three baseline measurements is the one that is
+	// visited first (trials are visited in the order of their raw stamps).
+	heavy := vndParam("heavy")
+	rs := []h18Res{
+		{exp: heavy, ser: 0, role: 'B', name: 'P'},
+		{exp: heavy, ser: 0, role: 'B', name: 'P'},
+		{exp: heavy, ser: 0, role: 'B', name: 'P'},
+		{exp: heavy, ser: 1, role: 'T', name: 'P'},
+		{exp: heavy, ser: 0, role: 'T', name: 'P'},
+	}
+	// two more results with symbolic placement
+	for k := 0; k < 2; k++ {
+		rs = append(rs, h18Res{exp: vndChoice("exp", 2), ser: vndChoice("ser", 2), role: []byte{'T', 'B'}[vndChoice("role", 2)], name: 'P'})
+	}
+	b, _ := NewBuilder(h18Options())
+	for i := range rs {
+		b.Add(rs[i].build(i))
+	}
+	css1, err1 := b.AllComparisonSeries(nil, dupe)
+	first := h18Render(css1)
+	css2, err2 := b.AllComparisonSeries(nil, dupe)
+	vndReach("h18:twice")
+	vndAssert(err1 == nil && err2 == nil, "no-error")
+	vndAssert(h18Render(css2) == first, "building-the-series-twice-gives-the-same-result")
+	// membership of every complete point (both policies), by the same rule as H18Membership
+	norm := []string{"2020-01-01T00:00:00+00:00", "2020-01-02T00:00:00+00:00"}
+	if len(css2) != 1 {
+		return
+	}
+	for ser := 0; ser < 2; ser++ {
+		c, ok := css2[0].ComparisonAt("P", norm[ser])
+		if !ok || c.Numerator == nil || c.Denominator == nil {
+			continue
+		}
+		var exps []int
+		for e := 0; e < 2; e++ {
+			for _, r := range rs {
+				if r.exp == e && r.role == 'T' && h18Instant[r.ser] == ser {
+					exps = append(exps, e)
+					break
+				}
+			}
+		}
+		use := exps
+		if dupe == DUPE_REPLACE && len(exps) > 0 {
+			use = exps[len(exps)-1:]
+		}
+		var wantN, wantD []float64
+		for _, e := range use {
+			for i, r := range rs {
+				if r.exp == e && r.role == 'T' && h18Instant[r.ser] == ser {
+					wantN = append(wantN, h18Val(i))
+				}
+				if r.exp == e && r.role == 'B' {
+					wantD = append(wantD, h18Val(i))
+				}
+			}
+		}
+		sort.Float64s(wantN)
+		sort.Float64s(wantD)
+		vndAssert(fmt.Sprint(c.Numerator.Values) == fmt.Sprint(wantN), "numerator-sample-is-exactly-the-matching-measurements")
+		vndAssert(fmt.Sprint(c.Denominator.Values) == fmt.Sprint(wantD), "denominator-sample-is-exactly-the-matching-measurements")
 	}
 }
